@@ -679,6 +679,16 @@ def run_websocket_conversation(cfg, variant, frames, k):
             while len(ws.sent) < want_frames and time.time() - t0 < 8 and \
                     th.is_alive():
                 time.sleep(0.002)
+        # the client closes once every event it sent has been handled (the
+        # handlers of events without an id run in threads of their own and
+        # answer nothing: their log entries are the only sign)
+        n_events = len([1 for f, _ in frames if isinstance(f, str) and
+                        f[:2] in ('42', '45')])
+        t0 = time.time()
+        while len([1 for e in log if e[0] == 'event']) < n_events and \
+                time.time() - t0 < 8 and th.is_alive():
+            time.sleep(0.002)
+        handled = len([1 for e in log if e[0] == 'event'])
         time.sleep(0.02)
         ws.incoming.put(None)
         th.join(15)
@@ -690,7 +700,8 @@ def run_websocket_conversation(cfg, variant, frames, k):
                 x = '40{"sid":<sid>}'
             out.append(x if isinstance(x, str) else {'$bytes': x.hex()})
         return {'frames_to_client': out, 'handler_log': log,
-                'handler_thread_alive': th.is_alive()}
+                'handler_thread_alive': th.is_alive(),
+                'all_handled_before_close': handled >= n_events}
     finally:
         run.close()
 
@@ -719,6 +730,11 @@ def part_websocket(ctx, k):
                                    if variant.startswith('admin') else
                                    variant, conv, k)
     ctx.count('websocket_conversations')
+    if not (a['all_handled_before_close'] and b['all_handled_before_close']):
+        # (wall-clock watchdog fired on a loaded machine: the order of the
+        # last handler and the disconnect handler is then the machine's)
+        ctx.count('websocket_conversations_not_completed')
+        return
     ctx.count('websocket_frames_compared', len(a['frames_to_client']))
     if a != b:
         ctx.violation(None, 'an application client on the websocket '
@@ -779,6 +795,7 @@ def run(ctx):
     ctx.require('admin_requests_that_must_be_inert', 10)
     ctx.require('control_requests_with_effect', 3)
     ctx.require('websocket_conversations', 5)
+    ctx.require('websocket_frames_compared', 5)
     ctx.require('transparency_scripts', 20)
     ctx.require('transparency_scripts_with_a_burst_of_room_changes', 2)
     ctx.require('transparency_runs_with_admin_connected', 5)
